@@ -168,20 +168,30 @@ func (f *mfile) ReadAt(b []byte, off int64) (int, error) {
 func (f *mfile) Close() error { return nil }
 
 func (d mdirStream) ReadDir(n int) ([]fs.DirEntry, error) {
-	if n != 1 {
-		// not used by the walker
-		all, err := d.m.ReadDir(d.name)
-		return all, err
+	// the fs.ReadDirFile contract: up to n entries from the current position, io.EOF at the end when n > 0;
+	// everything that is left (and a nil error at the end) when n <= 0. A fault on the k-th entry is returned
+	// by the call that would deliver that entry first.
+	var out []fs.DirEntry
+	for n <= 0 || len(out) < n {
+		if err := d.m.fault("readent", d.name, d.ents+1); err != nil {
+			if len(out) > 0 {
+				return out, nil
+			}
+			d.ents++
+			return nil, err
+		}
+		if d.ents >= len(d.n.kids) {
+			break
+		}
+		d.ents++
+		k := d.n.kids[d.ents-1]
+		out = append(out, minfo{k, d.m.nodes[path.Join(d.name, k)]})
 	}
-	d.ents++
-	if err := d.m.fault("readent", d.name, d.ents); err != nil {
-		return nil, err
-	}
-	if d.ents > len(d.n.kids) {
+	if len(out) == 0 && n > 0 {
+		d.ents++
 		return nil, io.EOF
 	}
-	k := d.n.kids[d.ents-1]
-	return []fs.DirEntry{minfo{k, d.m.nodes[path.Join(d.name, k)]}}, nil
+	return out, nil
 }
 
 func (m *memFS) Open(name string) (fs.File, error) {
